@@ -3,6 +3,7 @@ package packhandle
 import (
 	"errors"
 	"fmt"
+	"github.com/go-git/go-git/v6/internal/simhook"
 	"io/fs"
 	"sync"
 	"sync/atomic"
@@ -171,6 +172,7 @@ func (h *PackHandle) doClose() error {
 
 	packErr := h.pack.Close()
 
+	simhook.BeforeLock(&h.indexMu)
 	h.indexMu.Lock()
 	idx := h.indexVal
 	h.indexVal = nil
@@ -192,6 +194,7 @@ func (h *PackHandle) Meta() (PackMeta, error) {
 	if h.closed.Load() {
 		return PackMeta{}, fs.ErrClosed
 	}
+	simhook.BeforeLock(&h.metaMu)
 	h.metaMu.Lock()
 	defer h.metaMu.Unlock()
 	if h.closed.Load() {
@@ -244,6 +247,7 @@ func (h *PackHandle) CloseIdleDescriptors() error {
 
 	packErr := h.pack.ReleaseNow()
 
+	simhook.BeforeLock(&h.indexMu)
 	h.indexMu.Lock()
 	idx := h.indexVal
 	h.indexMu.Unlock()
